@@ -176,9 +176,10 @@ def run_shard(spec, res):
         if dl.over():
             break
         res.evaluations += 1
-        check_tree(case_rng(spec['seed'], ID, i), res, i)
+        from kverif.kharness import call_case
+        call_case(res, check_tree, case_rng(spec['seed'], ID, i), res, i, case=dict(idx=i))
         if i % 4 == 0:
-            check_neox(case_rng(spec['seed'], ID, i, 'neox'), res, i)
+            call_case(res, check_neox, case_rng(spec['seed'], ID, i, 'neox'), res, i, case=dict(idx=i, kind='neox'))
 
 
 def replay(case, res):
